@@ -49,6 +49,14 @@ def expected_fall_ends(cs) -> set:
     for cand in {ps[-1], (real[-1] if real else ps[-1])}:
         for mode in {slot_in_eom(cand, cs), cs.in_eom}:
             out.add(max(end, cand.tf + fall_time(cand, cs, mode)))
+    # detuned delays are transparent: the real pulse behind them counts too
+    trail = []
+    for s in reversed(ps):
+        trail.append(s)
+        if s.kind == "pulse":
+            break
+    for mode_fn in (lambda s: slot_in_eom(s, cs), lambda s: cs.in_eom):
+        out.add(max([end] + [s.tf + fall_time(s, cs, mode_fn(s)) for s in trail]))
     return out
 
 
